@@ -7,6 +7,15 @@ Five case types, all small JSON dicts (bulk data regenerated from the seed store
   optim  fourier.ns_optim_fft against the smallest 2^a 3^b >= n (independent table of Python ints + definition)
   dft2   fourier.dft2 on (subsets of) regular grids against numpy.fft.fft2 of the zero-filled image
   cos    utils.fcn_cosine on sorted samples
+
+Every case type also draws the "dimensions every generator needs" (CHECK_AUTHOR_GUIDE): the memory layout and the dtype of
+every array argument (C / Fortran / axis-swapped / strided / reversed views, read-only, float32 / float64 / integers), the
+container / scalar type of the small arguments (corners as list / tuple / ndarray, lengths as Python or numpy integers), the
+call form (keyword omitted = default, keyword, positional), and `rep`: the same argument objects passed to a second call
+(oracle from copies made before the first call), after the caller has overwritten the first result in place (what
+voltage.fk does with the frequency scale and the taper, voltage.agc with the convolution) and after a call with other
+arguments of the same shape. Arguments are compared with the copies afterwards. Fields missing in old corpus cases default
+to the original behaviour (C-contiguous float64, lists, one call).
 """
 import bisect
 import math
@@ -34,7 +43,17 @@ RULE = ("Case types: conv (nsx, nsw, x = identity/impulse basis | vector | matri
         "lp+hp == x, bp == hp(lp) == lp(hp), frequency response of lp == 1 - cosine taper at the DFT bin frequencies; "
         "taper 0 below, 1 above, non-decreasing, equal to (1-cos(pi t))/2. Non-trivial = conv case whose true padded "
         "size is odd or whose kernel is longer than the signal; spec/dft2 case with a prime length; optim case whose "
-        "answer is a power of three. Distinct = distinct case hash (enumerated cases are distinct by construction).")
+        "answer is a power of three. Distinct = distinct case hash (enumerated cases are distinct by construction). "
+        "Dimensions drawn in every case type (enumerated cases cycle through them deterministically): memory layout of each "
+        "array argument (lay/layw/rc: C, Fortran, axis-swapped, strided and reversed views; ro: read-only), dtype (conv: "
+        "float64/float32/int16/int32/uint16 for signal and kernel independently; spec: float64/float32/int16 signal, "
+        "complex128/complex64/real half spectra; dft2: float64/float32; cos: float64/float32/int64/int32/uint16 samples), "
+        "containers and scalars (corners and bounds as list/tuple/ndarray/read-only ndarray, lengths as int/np.int64/np.int32, "
+        "sampling interval as float/np.float64/int, ns_optim_fft arguments as int/np.int64/np.int32/np.uint32/float/"
+        "np.float64/non-integer float), call form (option omitted, keyword, positional; _freq_filter and _freq_vector "
+        "with every spelling of typ and its default), and rep = 0/1/2: second call with the same argument objects (1), "
+        "additionally after the first results were overwritten in place by the caller and after a call with other "
+        "arguments of the same shape (2). Arguments must compare equal to copies made before the first call.")
 EXHAUSTIVE_NOTE = ("finite boxes enumerated completely: (nsx, nsw) pairs as listed in the rule (thorough: all of 1..300^2) x "
                    "{impulse basis, random vector} x {full, same}; n = 1..300 x ndim 1..3 x axis x axis-sign; "
                    "ns_optim_fft on 1..5000 (thorough 1..200000) and around every 2^a3^b <= 2^24; dft2 grids <= 12x12 "
@@ -49,6 +68,14 @@ ASSUMPTIONS = [
     "filter corners are at least 1 % of Nyquist apart, cosine bounds at least 1e-3 apart (the taper is otherwise "
     "ill-conditioned with respect to one-ulp differences in the frequency scale)",
     "dft on arrays longer than 512 samples is compared on a subset of coefficients passed through kscale",
+    "no function of the property modifies its array arguments (the unchanged tree does not; the repository's tests and "
+    "callers - agc, fk, smooth.lp, dephas, fit_phase - pass the same arrays on afterwards), and the arrays returned by "
+    "fscale, fcn_cosine()(x) and convolve are fresh and writeable: voltage.fk overwrites kscale[0] and multiplies the taper "
+    "in place, voltage.agc adds to the convolution in place - a later call with the same arguments must not see that",
+    "input kinds the unchanged tree rejects are outside the domain: Python lists as signals (x.shape / x.ndim), unsigned "
+    "or float lengths for fscale, complex signals for convolve, lists as xscale/kscale/r/c, unsigned samples for "
+    "fcn_cosine with a negative lower bound (numpy refuses the subtraction)",
+    "float32 signals are held to float32 tolerances (numpy's FFT keeps single precision), integer signals to float64",
 ]
 BUDGET = {"quick": 10000, "thorough": 240000}
 SHRINK = {"quick": True, "thorough": True}
@@ -146,6 +173,87 @@ CONTENTS = ["normal", "normal", "normal", "offset", "spikes", "ints", "ones"]
 
 
 # ------------------------------------------------------------------------------------------------
+# representations of one value: memory layout, dtype, container, scalar type
+
+LAYOUTS = ["C", "F", "swap", "strided", "neg"]
+BOXES = ["list", "arr", "tuple", "arr_ro"]
+SI_KINDS = ["float", "npf", "int"]     # int only takes effect when the sampling interval is an integer (1, 7)
+TYPS = ["", "lp", "hp", "lowpass", "highpass", "LP", "HighPass"]   # "" = typ omitted (default low-pass)
+OPTIM_KINDS = ["int", "i8", "i4", "u4", "float", "npf", "below", "above"]
+NPDT = {"f8": np.float64, "f4": np.float32, "i2": np.int16, "i4": np.int32, "i8": np.int64, "u2": np.uint16,
+        "c16": np.complex128, "c8": np.complex64}
+
+
+def _lay(a, kind="C", ro=False):
+    """A new array with the values and dtype of `a` in another memory layout (never shares memory with `a`):
+    C, F (Fortran order), swap (first and last axis exchanged in memory), strided (every other element of a wider
+    buffer whose gaps hold NaN / a sentinel), neg (negative stride along the last axis); 1-D arrays have no F / swap
+    layout and get the strided one instead. ro: flagged read-only (what np.memmap(mode='r') hands out)."""
+    a = np.array(a, order="C", copy=True)
+    if a.ndim == 0 or a.shape[-1] == 0:
+        out = a
+    elif kind == "F" and a.ndim >= 2:
+        out = np.asfortranarray(a)
+    elif kind == "swap" and a.ndim >= 2:
+        out = np.swapaxes(np.ascontiguousarray(np.swapaxes(a, 0, -1)), 0, -1)
+    elif kind in ("strided", "F", "swap"):
+        fill = np.nan if a.dtype.kind in "fc" else 121
+        base = np.full(a.shape[:-1] + (2 * a.shape[-1] + 1,), fill, dtype=a.dtype)
+        out = base[..., 1::2]
+        out[...] = a
+    elif kind == "neg":
+        out = np.ascontiguousarray(a[..., ::-1])[..., ::-1]
+    else:
+        out = a
+    if ro:
+        out.flags.writeable = False
+    return out
+
+
+def _to_dtype(a, dt):
+    """float content as dtype dt: integers are truncated (unsigned: magnitude), so that the value is exact in every dtype"""
+    a = np.asarray(a)
+    k = np.dtype(NPDT[dt]).kind
+    if k in "iu":
+        a = np.trunc(a)
+        if k == "u":
+            a = np.abs(a)
+    return a.astype(NPDT[dt])
+
+
+def _same(arg, copy):
+    """the argument still holds what it held before the call(s)"""
+    try:
+        a = np.asarray(arg)
+        return a.shape == np.shape(copy) and bool(np.array_equal(a, copy))
+    except Exception:  # noqa - whatever the code under test turned the container into
+        return False
+
+
+def _scribble(r):
+    """what a caller may do with a result it owns (fk: kscale[0] = 1e-6, taper *= ...; agc: gain += ...)"""
+    if isinstance(r, np.ndarray) and r.flags.writeable and r.size:
+        r[...] = -7.0 if r.dtype.kind in "iu" else np.nan
+
+
+def _int_kind(n, kind):
+    return {"int": int, "i8": np.int64, "i4": np.int32, "u4": np.uint32}[kind](n)
+
+
+def _box(vals, kind):
+    """corner frequencies / bounds as the containers the callers use: list (fk, tests), ndarray (smooth.lp), tuple"""
+    if kind == "arr":
+        return np.array(vals)
+    if kind == "arr_ro":
+        a = np.array(vals)
+        a.flags.writeable = False
+        return a
+    if kind == "tuple":
+        return tuple(vals)
+    return list(vals)
+
+
+# ------------------------------------------------------------------------------------------------
 # enumeration
 
 def _pair_selected(nsx, nsw, mode):
@@ -185,24 +293,42 @@ def enum_cases(desc):
                 if i % desc["n"] != desc["shard"]:
                     continue
                 seed = nsx * 1000 + nsw
+                # the dimensions cycle with the pair (values and float64 tolerance as before; layout, call form, re-use vary)
+                q = 3 * nsx + 5 * nsw
                 yield {"t": "conv", "nsx": nsx, "nsw": nsw, "xk": "eye", "nr": 0, "content": "normal", "dtype": "f8",
-                       "seed": seed}
+                       "seed": seed, "wdt": "", "lay": LAYOUTS[q % 5], "layw": LAYOUTS[(q // 5) % 5], "ro": q % 4 == 1,
+                       "form": q % 3, "rep": {0: 1, 8: 2}.get(q % 16, 0)}
+                q += 7
                 yield {"t": "conv", "nsx": nsx, "nsw": nsw, "xk": "vec", "nr": 0, "content": "normal", "dtype": "f8",
-                       "seed": seed + 500000}
+                       "seed": seed + 500000, "wdt": "", "lay": LAYOUTS[q % 5], "layw": LAYOUTS[(q // 5) % 5],
+                       "ro": q % 4 == 1, "form": q % 3, "rep": {0: 1, 8: 2}.get(q % 16, 0)}
     elif k == "spec":
         for n in desc["ns"]:
             for ndim in (1, 2, 3):
                 for pos in range(ndim):
                     for neg in (False, True):
                         other = [2, 3][: ndim - 1]
+                        q = n + 3 * ndim + pos
+                        # float32 / int16 signals where the filters are not exercised anyway (negative axis), plus one
+                        # filtered axis combination in five for float32: the float64 tolerance keeps every n
+                        dt = ("f4" if ndim == 2 else "i2" if ndim == 3 else "f8") if neg else (
+                            "f4" if ndim == 3 and pos == 1 and n % 5 == 0 else "f8")
                         yield {"t": "spec", "n": n, "other": other, "pos": pos, "neg": neg, "none": False,
                                "si": [1.0, 1 / 30000, 0.002][n % 3], "corners": [100, 200 + n % 300, 350 + n, 900 + n % 250],
-                               "cplx": bool(n % 2), "basis": False, "seed": n * 16 + ndim * 4 + pos * 2 + int(neg)}
+                               "cplx": bool(n % 2), "basis": False, "seed": n * 16 + ndim * 4 + pos * 2 + int(neg),
+                               "lay": LAYOUTS[q % 5], "ro": q % 4 == 1, "dt": dt,
+                               "spk": "f8" if (neg and ndim == 1) else "c8" if (ndim == 2 and pos == 0 and not neg) else "c16",
+                               "bk": BOXES[(n + pos) % 4], "sik": SI_KINDS[n % 3], "nk": ["int", "i8", "i4"][(n + ndim) % 3],
+                               "rep": {0: 1, 4: 2}.get(q % 8, 0), "omit": False, "ff": (n + pos) % 6 == 0,
+                               "typ": TYPS[(n + ndim) % len(TYPS)]}
             for pos in (0, 1):
                 yield {"t": "spec", "n": n, "other": [n], "pos": pos, "neg": False, "none": pos == 1 and n % 2 == 0,
                        "si": [1.0, 1 / 2500][n % 2], "corners": [(7 * n) % 500, (7 * n) % 500 + 10 + n % 400,
                                                                  300 + n % 100, 320 + n],
-                       "cplx": False, "basis": True, "seed": n}
+                       "cplx": False, "basis": True, "seed": n,
+                       "lay": LAYOUTS[(n + pos) % 5], "ro": n % 4 == 2, "dt": "f8", "spk": "c16", "bk": BOXES[(n + pos + 1) % 4],
+                       "sik": SI_KINDS[(n + 1) % 3], "nk": ["int", "i8", "i4"][n % 3], "rep": {0: 1, 4: 2}.get((n + pos) % 8, 0),
+                       "omit": n % 4 == 0, "ff": n % 7 == 0, "typ": TYPS[n % len(TYPS)]}
     elif k == "optim_range":
         step = 250
         for lo in range(desc["lo"], desc["hi"] + 1, step):
@@ -215,20 +341,30 @@ def enum_cases(desc):
             args.extend(a for a in (s - 1, s, s + 1) if 1 <= a <= 2 ** 24)
         args = sorted(set(args))
         for i in range(0, len(args), 40):
-            yield {"t": "optim", "lo": 0, "hi": -1, "args": args[i:i + 40]}
+            yield {"t": "optim", "lo": 0, "hi": -1, "args": args[i:i + 40], "ak": "all"}
     elif k == "dft2":
         for nk in range(1, desc["nmax"] + 1):
             for nl in range(1, desc["nmax"] + 1):
+                q = 2 * nk + nl
                 yield {"t": "dft2", "nk": nk, "nl": nl, "nt": 1 + (nk + nl) % 3, "keep": 1000, "perm": False,
-                       "vector": False, "cplx": False, "seed": nk * 100 + nl}
+                       "vector": False, "cplx": False, "seed": nk * 100 + nl,
+                       "lay": LAYOUTS[q % 5], "rc": ["C", "strided", "neg"][q % 3], "ro": q % 4 == 1, "dt": "f8",
+                       "nkk": ["int", "i8", "i4"][nk % 3], "rep": q % 3}
+                q += 3
                 yield {"t": "dft2", "nk": nk, "nl": nl, "nt": 2, "keep": 600, "perm": True, "vector": False,
-                       "cplx": bool((nk + nl) % 2), "seed": nk * 100 + nl + 7}
+                       "cplx": bool((nk + nl) % 2), "seed": nk * 100 + nl + 7,
+                       "lay": LAYOUTS[q % 5], "rc": ["C", "strided", "neg"][q % 3], "ro": q % 4 == 1,
+                       "dt": "f4" if nl % 4 == 0 else "f8", "nkk": ["int", "i8", "i4"][nl % 3], "rep": q % 3}
 
 
 # ------------------------------------------------------------------------------------------------
 # Hypothesis strategies
 
 _SEED = st.integers(0, 2 ** 32 - 1)
+_LAY = st.sampled_from(["C", "C"] + LAYOUTS)
+_REP = st.sampled_from([0, 0, 0, 0, 1, 2])
+_DIMS = st.fixed_dictionaries({"lay": _LAY, "ro": st.sampled_from([False, False, False, True]), "rep": _REP})
+_NK = st.sampled_from(["int", "int", "i8", "i4"])
 _SI = st.sampled_from([1.0, 1 / 30000, 1 / 2500, 0.002, 3.3e-5, 7.0])
 _PRIMES = [p for p in range(2, 2000) if _is_prime(p)] + [4099, 10007, 30011, 65537, 99991]
 _SMOOTH_SMALL = [s for s in _TABLE if 2 <= s <= 40000]
@@ -262,7 +398,10 @@ def _conv(draw, tier):
     xk = draw(st.sampled_from(kinds))
     nr = draw(st.integers(1, 5)) if xk in ("mat", "matmat") else 0
     return {"t": "conv", "nsx": nsx, "nsw": nsw, "xk": xk, "nr": nr, "content": draw(st.sampled_from(CONTENTS)),
-            "dtype": draw(st.sampled_from(["f8", "f8", "f8", "f4"])), "seed": draw(_SEED)}
+            "dtype": draw(st.sampled_from(["f8", "f8", "f8", "f8", "f4", "f4", "i2", "i4", "u2"])),
+            # dtype of the kernel: "" = that of the signal (agc convolves float32 / integer magnitudes with a float64 window)
+            "wdt": draw(st.sampled_from(["", "", "", "f8", "f4", "i2"])), "seed": draw(_SEED), **draw(_DIMS),
+            "layw": draw(_LAY), "form": draw(st.integers(0, 2))}
 
 
 @st.composite
@@ -288,7 +427,10 @@ def _spec(draw, tier):
     i3 = draw(st.integers(i2 + 10, 1250))
     return {"t": "spec", "n": n, "other": other, "pos": pos, "neg": draw(st.booleans()),
             "none": draw(st.booleans()) if pos == ndim - 1 else False, "si": draw(_SI), "corners": [i0, i1, i2, i3],
-            "cplx": draw(st.booleans()), "basis": False, "seed": draw(_SEED)}
+            "cplx": draw(st.booleans()), "basis": False, "seed": draw(_SEED), **draw(_DIMS),
+            "dt": draw(st.sampled_from(["f8", "f8", "f8", "f4", "i2"])), "spk": draw(st.sampled_from(["c16", "c16", "c8", "f8", "f4"])),
+            "bk": draw(st.sampled_from(BOXES)), "sik": draw(st.sampled_from(SI_KINDS)), "nk": draw(_NK),
+            "omit": draw(st.booleans()), "ff": draw(st.integers(0, 3)) == 0, "typ": draw(st.sampled_from(TYPS))}
 
 
 @st.composite
@@ -301,7 +443,8 @@ def _optim(draw, tier):
             return min(2 ** 24, int(2 ** draw(st.floats(0, 24))))
         s = draw(st.sampled_from(_TABLE[: bisect.bisect_right(_TABLE, 2 ** 24)]))
         return max(1, min(2 ** 24, s + draw(st.integers(-3, 3))))
-    return {"t": "optim", "lo": 0, "hi": -1, "args": [one() for _ in range(draw(st.integers(1, 24)))]}
+    return {"t": "optim", "lo": 0, "hi": -1, "args": [one() for _ in range(draw(st.integers(1, 24)))],
+            "ak": draw(st.sampled_from(OPTIM_KINDS + ["all"]))}
 
 
 @st.composite
@@ -310,7 +453,9 @@ def _dft2(draw, tier):
     vector = draw(st.integers(0, 5)) == 0
     return {"t": "dft2", "nk": nk, "nl": nl, "nt": 1 if vector else draw(st.integers(1, 5)),
             "keep": draw(st.sampled_from([1000, 1000, 800, 500, 200, 50])), "perm": draw(st.booleans()),
-            "vector": vector, "cplx": draw(st.booleans()), "seed": draw(_SEED)}
+            "vector": vector, "cplx": draw(st.booleans()), "seed": draw(_SEED), **draw(_DIMS),
+            "rc": draw(st.sampled_from(["C", "C", "strided", "neg"])), "dt": draw(st.sampled_from(["f8", "f8", "f4"])),
+            "nkk": draw(_NK)}
 
 
 @st.composite
@@ -323,7 +468,10 @@ def _cos(draw, tier):
         b0 = draw(st.integers(-10 ** 7, 10 ** 7)) / 1000
         b1 = b0 + draw(st.integers(1, 10 ** 7)) / 1000
     return {"t": "cos", "b0": b0, "b1": b1, "int": integer, "npts": draw(st.integers(1, 400)),
-            "arr": draw(st.booleans()), "two_d": draw(st.booleans()), "seed": draw(_SEED)}
+            "arr": draw(st.booleans()), "two_d": draw(st.booleans()), "seed": draw(_SEED), **draw(_DIMS),
+            # dtype of the samples: "" = float64 / int64 as generated; f4, i4, u2 only take effect on integer bounds (u2: b0 >= 0)
+            "xdt": draw(st.sampled_from(["", "", "f4", "i4", "u2", "u2"])), "bk": draw(st.sampled_from(["", "", "tuple", "arr_ro"])),
+            "form": draw(st.integers(0, 1))}
 
 
 def strategy(tier):
@@ -400,21 +548,30 @@ def run_case(case, ctx):
 def _run_conv(case, ctx):
     F = sut.fourier()
     nsx, nsw, xk, dt = case["nsx"], case["nsw"], case["xk"], case["dtype"]
+    wdt = case.get("wdt") or dt
+    lay, layw, ro = case.get("lay", "C"), case.get("layw", "C"), bool(case.get("ro", False))
+    form, rep = case.get("form", 0), case.get("rep", 0)
     rng = np.random.default_rng(case["seed"])
-    npdt = np.float64 if dt == "f8" else np.float32
     if xk == "matmat":
-        w = _content(rng, (case["nr"], nsw), case["content"]).astype(npdt)
+        w0 = _to_dtype(_content(rng, (case["nr"], nsw), case["content"]), wdt)
     else:
-        w = _content(rng, (nsw,), case["content"]).astype(npdt)
+        w0 = _to_dtype(_content(rng, (nsw,), case["content"]), wdt)
     if xk == "eye":
-        x = np.eye(nsx, dtype=npdt)
+        x0 = np.eye(nsx, dtype=NPDT[dt])
     elif xk == "vec":
-        x = _content(rng, (nsx,), case["content"]).astype(npdt)
+        x0 = _to_dtype(_content(rng, (nsx,), case["content"]), dt)
     else:
-        x = _content(rng, (case["nr"], nsx), case["content"]).astype(npdt)
+        x0 = _to_dtype(_content(rng, (case["nr"], nsx), case["content"]), dt)
+    # what the code under test sees: same values, drawn memory layout; x0 / w0 stay behind as the copies
+    x, w = _lay(x0, lay, ro), _lay(w0, layw, ro)
+    edt = "f4" if "f4" in (dt, wdt) else "f8"  # numpy's FFT keeps single precision; integers are transformed in double
     pad = next_smooth(nsx + nsw)
     odd = pad % 2 == 1
-    ctx.label("conv_" + xk, "conv_" + dt, "pad_odd" if odd else "pad_even", "nsw_even" if nsw % 2 == 0 else "nsw_odd")
+    ctx.label("conv_" + xk, "conv_" + dt, "conv_w_" + wdt, "pad_odd" if odd else "pad_even",
+              "nsw_even" if nsw % 2 == 0 else "nsw_odd", "conv_lay_" + lay, "conv_layw_" + layw, f"conv_form{form}",
+              f"conv_rep{rep}")
+    if ro:
+        ctx.label("conv_readonly")
     if nsw > nsx:
         ctx.label("kernel_longer")
     if nsx == 1 or nsw == 1:
@@ -427,8 +584,8 @@ def _run_conv(case, ctx):
     kfull = base if odd else base + "_full"
     ksame = base if odd else base + "_same"
 
-    # reference: direct convolution in float64 of the (possibly float32-valued) inputs
-    x64, w64 = x.astype(np.float64), w.astype(np.float64)
+    # reference: direct convolution in float64 of the (possibly float32- or integer-valued) inputs
+    x64, w64 = x0.astype(np.float64), w0.astype(np.float64)
     L = nsx + nsw - 1
     if xk == "eye":
         E = np.zeros((nsx, L))
@@ -447,35 +604,77 @@ def _run_conv(case, ctx):
         scale = scale[0]
     else:
         scale = scale[:, np.newaxis]
-    tol = CONV_TOL_EPS * EPS[dt]
+    tol = CONV_TOL_EPS * EPS[edt]
+    first = (nsw - 1) // 2
+    Es = E[..., first:first + nsx]
 
-    got = ctx.call(kfull, F.convolve, x, w)
-    if got is not ctx.CRASH:
+    def check_full(got, which):
         got = np.asarray(got)
         ok = got.ndim == E.ndim and got.shape[:-1] == E.shape[:-1] and L <= got.shape[-1] <= L + 1
         if ctx.check(ok, kfull, lambda: f"'full' shape {got.shape}, expected {E.shape[:-1] + (L,)} (+1 trailing zero); "
-                                        f"nsx={nsx} nsw={nsw} true padded size {pad}"):
+                                        f"nsx={nsx} nsw={nsw} true padded size {pad} ({which})"):
             err = float(np.max(np.abs(got[..., :L] - E) / scale))
             if got.shape[-1] > L:
                 err = max(err, float(np.max(np.abs(got[..., L:]) / scale)))
+            if not (err <= tol):  # also NaN
+                err = float("inf") if err != err else err
             # odd padded sizes get their own margin (only cases that hold): on a tree with the irfft defect a few large
             # float32 cases slip under the tolerance by accident and would otherwise pollute the measured margin
             if not odd or err <= tol:
-                ctx.stat(f"conv_{'oddpad' if odd else 'full'}_err_in_eps_{dt}", err / EPS[dt])
+                ctx.stat(f"conv_{'oddpad' if odd else 'full'}_err_in_eps_{edt}", err / EPS[edt])
             ctx.check(err <= tol, kfull, lambda: f"'full' differs from direct convolution by {err:.3g} x scale "
-                                                 f"(tol {tol:.3g}); nsx={nsx} nsw={nsw} true padded size {pad}")
-    got = ctx.call(ksame, F.convolve, x, w, mode="same")
-    if got is not ctx.CRASH:
+                                                 f"(tol {tol:.3g}); nsx={nsx} nsw={nsw} true padded size {pad}; {which}, "
+                                                 f"x {dt} {lay}, w {wdt} {layw}")
+
+    def check_same(got, which):
         got = np.asarray(got)
-        first = (nsw - 1) // 2
-        Es = E[..., first:first + nsx]
         if ctx.check(got.shape == Es.shape, ksame, lambda: f"'same' shape {got.shape}, expected {Es.shape}; nsx={nsx} "
-                                                          f"nsw={nsw} true padded size {pad}"):
+                                                          f"nsw={nsw} true padded size {pad} ({which})"):
             err = float(np.max(np.abs(got - Es) / scale))
+            if not (err <= tol):
+                err = float("inf") if err != err else err
             if not odd or err <= tol:
-                ctx.stat(f"conv_{'oddpad' if odd else 'same'}_err_in_eps_{dt}", err / EPS[dt])
+                ctx.stat(f"conv_{'oddpad' if odd else 'same'}_err_in_eps_{edt}", err / EPS[edt])
             ctx.check(err <= tol, ksame, lambda: f"'same' differs from the centred slice of the direct convolution by "
-                                                 f"{err:.3g} x scale (tol {tol:.3g}); nsx={nsx} nsw={nsw} padded {pad}")
+                                                 f"{err:.3g} x scale (tol {tol:.3g}); nsx={nsx} nsw={nsw} padded {pad}; "
+                                                 f"{which}, x {dt} {lay}, w {wdt} {layw}")
+
+    # call forms: option omitted (default 'full') / keyword / positional, gpu left out or at its documented default
+    if form == 0:
+        full_args, full_kw, same_args, same_kw = (), {}, (), {"mode": "same"}
+    elif form == 1:
+        full_args, full_kw, same_args, same_kw = (), {"mode": "full"}, ("same",), {}
+    else:
+        full_args, full_kw, same_args, same_kw = ("full", False), {}, (), {"mode": "same", "gpu": False}
+
+    g1 = ctx.call(kfull, F.convolve, x, w, *full_args, **full_kw)
+    if g1 is not ctx.CRASH:
+        check_full(g1, "first call")
+    g2 = ctx.call(ksame, F.convolve, x, w, *same_args, **same_kw)
+    if g2 is not ctx.CRASH:
+        check_same(g2, "first call")
+    for g in (g1, g2):
+        if isinstance(g, np.ndarray):
+            # voltage.agc adds to the result in place
+            ctx.check(g.flags.writeable, "C18.convolve_result_readonly", "convolve returned a read-only array (agc adds to it "
+                                                                         "in place)")
+    if rep:
+        if rep == 2:
+            # the caller has used its results (agc: gain += ...), and another signal of the same shape went through
+            _scribble(g1)
+            _scribble(g2)
+            xo = _lay(_to_dtype(x64[..., ::-1] + 1.0, dt), lay, ro)
+            ctx.call(kfull, F.convolve, xo, w, *same_args, **same_kw)
+        g3 = ctx.call(kfull, F.convolve, x, w, *full_args, **full_kw)
+        if g3 is not ctx.CRASH:
+            check_full(g3, "second call with the same argument objects")
+        if rep == 2:
+            g4 = ctx.call(ksame, F.convolve, x, w, *same_args, **same_kw)
+            if g4 is not ctx.CRASH:
+                check_same(g4, "second call with the same argument objects")
+    ctx.check(_same(x, x0) and _same(w, w0), "C18.convolve_input_mutated",
+              lambda: f"convolve modified its {'signal' if not _same(x, x0) else 'kernel'} argument (nsx={nsx} nsw={nsw}, "
+                      f"x {dt} {lay}, w {wdt} {layw})")
 
 
 # ---- one length: fscale, freduce/fexpand, dft, filters ---------------------------------------------
